@@ -167,6 +167,21 @@ def main(tier):
                         ck.violation(x['key'] + ':clang++', x['what'] + ' (wrappers compiled with clang++)', dict(call=x['witness'], count=x['count'], config=config, compiler='clang++'))
                     elif x['type'] == 'summary':
                         tot['clang_requests'] = tot.get('clang_requests', 0) + x['requests']
+        # ... and by the user's FLAGS: a release build of the host (-O2 -DNDEBUG: what sits inside assert() is gone) for the ABI whose plain char is
+        # unsigned, and a newer language standard (-std=c++17: other overloads, guaranteed copy elision, another evaluation order of call arguments)
+        if config == 'shipped':
+            for label, uf in (('-O2 -DNDEBUG -funsigned-char', ['-O2', '-DNDEBUG', '-funsigned-char']), ('-std=c++17', ['-std=c++17'])):
+                monu = build.cppmon(config, 'plain', user_flags=uf)
+                with ThreadPoolExecutor(4) as ex:
+                    resu = list(ex.map(lambda idx: run_part(monu, req[idx], strs, 'plain'), np.array_split(np.concatenate(parts[4:8]), 4)))
+                for r in resu:
+                    if r['rc'] != 0:
+                        ck.violation('crash:cppmon:user-flags:rc%d' % r['rc'], 'C++ monitor built with %s died' % label, dict(config=config, tail=r['tail'], flags=label))
+                    for x in r['recs']:
+                        if x['type'] == 'viol' and not x['key'].startswith('harness:'):
+                            ck.violation(x['key'] + ':' + label.split()[-1].lstrip('-'), x['what'] + ' (wrappers compiled with %s)' % label, dict(call=x['witness'], count=x['count'], config=config, flags=label))
+                        elif x['type'] == 'summary':
+                            tot['user_flag_requests'] = tot.get('user_flag_requests', 0) + x['requests']
         for r in res:
             for rep in r['reports']:
                 ck.violation('%s:%s' % (rep['kind'], rep['func']), '%s in %s while driving the C++ wrappers' % (rep['kind'], rep['func']), dict(config=config, report=rep['text'][:1500]))
@@ -184,6 +199,7 @@ def main(tier):
                 elif x['type'] == 'summary':
                     for k in ('requests', 'skipped', 'leakchecks'):
                         tot[k] += x[k]
+                    tot['during_unwinding'] = tot.get('during_unwinding', 0) + x.get('during_unwinding', 0)
                     if x.get('scenario_accepted', -1) >= 0:
                         scen['accepted'] += x['scenario_accepted']; scen['refused'] += x['scenario_refused']
     # allocation failpoints: the only way to the MEMORY -> std::bad_alloc path (no argument makes the library report XRL_ERROR_MEMORY)
@@ -206,5 +222,5 @@ def main(tier):
                     'field by field, exception type and what() against the C code and message; ASan allocation balance around both paths (3-repetition rule), '
                     'object wrappers used after the C originals are released; allocation failpoints (every library allocation of 34 C/wrapper scenario pairs failed in turn, in forked children: where C reports XRL_ERROR_MEMORY the wrapper must throw bad_alloc and neither side may leak); distinct = (wrapper, outcome class) pairs observed',
                samples=[dict(wrapper=k, **v) for k, v in sorted(stats.items())][:10], wrappers_driven=len(stats), wrappers_found_by_probe=len(wrapped_names),
-               leak_rechecks=tot['leakchecks'], addcrystal_scenario=scen, allocation_failpoints=fail, requests_through_clang_built_monitor=tot.get('clang_requests', 0), requests_skipped_null_string=tot['skipped'], per_wrapper=stats)
+               leak_rechecks=tot['leakchecks'], addcrystal_scenario=scen, allocation_failpoints=fail, requests_through_clang_built_monitor=tot.get('clang_requests', 0), requests_through_monitors_built_with_other_user_flags=tot.get('user_flag_requests', 0), wrapper_calls_made_during_stack_unwinding=tot.get('during_unwinding', 0), requests_skipped_null_string=tot['skipped'], per_wrapper=stats)
     return ck.finish(cov, ['g++ -std=c++11 -fsanitize=address,undefined', 'std::string cannot express a NULL compound: those tuples are skipped'])
